@@ -181,7 +181,7 @@ Proof.
     + assert (Hcase : t = TRBrace \/ match t :: ts with TRBrace :: _ => False | _ => True end)
         by (destruct t; auto).
       destruct Hcase as [->|Hc].
-      * cbn in H. injection H as _ <-. exists [TLBrace; TRBrace]. repeat split; [|discriminate]. reflexivity.
+      * cbn in H. injection H as _ <-. exists [TLBrace; TRBrace]. split; [reflexivity|split; [reflexivity|discriminate]].
       * rewrite parse_value_obj' in H by exact Hc.
         apply (members_of_consumes _ IH) in H. destruct H as [c [-> Dc]].
         exists (TLBrace :: c ++ [TRBrace]). split; [|split; [|discriminate]].
@@ -189,19 +189,19 @@ Proof.
         -- cbn [depth tdepth]. rewrite depth_app. cbn [depth tdepth]. lia.
   - (* TLBrack *)
     destruct ts as [|t ts].
-    + rewrite parse_value_arr' in H by exact I. discriminate.
+    + rewrite parse_value_arr' in H by exact I. cbn [elems_of] in H. destruct f; discriminate.
     + assert (Hcase : t = TRBrack \/ match t :: ts with TRBrack :: _ => False | _ => True end)
         by (destruct t; auto).
       destruct Hcase as [->|Hc].
-      * cbn in H. injection H as _ <-. exists [TLBrack; TRBrack]. repeat split; [|discriminate]. reflexivity.
+      * cbn in H. injection H as _ <-. exists [TLBrack; TRBrack]. split; [reflexivity|split; [reflexivity|discriminate]].
       * rewrite parse_value_arr' in H by exact Hc.
         apply (elems_of_consumes _ IH) in H. destruct H as [c [-> Dc]].
         exists (TLBrack :: c ++ [TRBrack]). split; [|split; [|discriminate]].
         -- cbn [app]. rewrite <- app_assoc. reflexivity.
         -- cbn [depth tdepth]. rewrite depth_app. cbn [depth tdepth]. lia.
-  - (* TStr *) cbn in H. injection H as _ <-. exists [TStr s]. repeat split; discriminate.
-  - (* TNum *) cbn in H. injection H as _ <-. exists [TNum z]. repeat split; discriminate.
-  - (* TNull *) cbn in H. injection H as _ <-. exists [TNull]. repeat split; discriminate.
+  - (* TStr *) cbn in H. injection H as _ <-. exists [TStr s]. split; [reflexivity|split; [reflexivity|discriminate]].
+  - (* TNum *) cbn in H. injection H as _ <-. exists [TNum z]. split; [reflexivity|split; [reflexivity|discriminate]].
+  - (* TNull *) cbn in H. injection H as _ <-. exists [TNull]. split; [reflexivity|split; [reflexivity|discriminate]].
 Qed.
 
 Corollary parse_value_complete_depth fuel ts v :
@@ -258,7 +258,41 @@ Theorem C10_prefix :
   forall b r ts rest, strip_ws (to_json b r) = ts ++ rest -> rest <> [] -> parse ts = None.
 Proof. intros b r ts rest. unfold to_json. apply parse_strict_prefix_none. Qed.
 
+(* the same with the statement phrased on tokens_of None *)
+Corollary strict_prefix_no_parse_tokens_of :
+  forall d ts rest, tokens_of None d = ts ++ rest -> rest <> [] ->
+    forall fuel v, parse_value fuel ts <> Some (v, []).
+Proof. intros d ts rest H. apply (strict_prefix_no_parse_any d ts rest H). Qed.
+
+(* raw (unstripped) token-level truncation: cutting the rendered report anywhere
+   either loses a significant token (then nothing parses) or only trailing white
+   space (then the value is unchanged): never a DIFFERENT valid document *)
+Lemma strip_ws_idem l : strip_ws (strip_ws l) = strip_ws l.
+Proof. apply strip_ws_fixed, strip_ws_nows. Qed.
+Lemma parse_strip ts : parse (strip_ws ts) = parse ts.
+Proof. unfold parse. rewrite strip_ws_idem. reflexivity. Qed.
+
+Theorem C10_prefix_raw :
+  forall b r ts rest, to_json b r = ts ++ rest -> strip_ws rest <> [] -> parse ts = None.
+Proof.
+  intros b r ts rest H Hrest. rewrite <- parse_strip.
+  apply (C10_prefix b r (strip_ws ts) (strip_ws rest)); [|exact Hrest].
+  rewrite H. apply strip_ws_app.
+Qed.
+
+Theorem C10_truncation_never_different :
+  forall b r ts rest, to_json b r = ts ++ rest ->
+    parse ts = None \/ parse ts = parse (to_json b r).
+Proof.
+  intros b r ts rest H. destruct (strip_ws rest) as [|t l] eqn:E.
+  - right. unfold parse. rewrite H, strip_ws_app, E, app_nil_r. reflexivity.
+  - left. apply (C10_prefix_raw b r ts rest H). rewrite E. discriminate.
+Qed.
+
 Print Assumptions strict_prefix_no_parse_any.
 Print Assumptions strict_prefix_no_parse.
 Print Assumptions parse_strict_prefix_none.
 Print Assumptions C10_prefix.
+Print Assumptions strict_prefix_no_parse_tokens_of.
+Print Assumptions C10_prefix_raw.
+Print Assumptions C10_truncation_never_different.
